@@ -108,6 +108,9 @@ class Check:
     def violation(self, class_key, replay, text, no_input=False):
         """Report a failing case. `class_key` identifies the *class* of input (used to match
         KNOWN_FINDINGS.json entries: an entry matches when its `key` equals class_key)."""
+        # a broken correspondence / proof obligation is not by itself a failing input of the property
+        if class_key.startswith(("tie", "proof", "coq-", "coqchk")) or "unreadable" in class_key:
+            no_input = True
         for f in self.known:
             if f.get("key") == class_key:
                 if class_key not in self.known_hits:
